@@ -43,7 +43,7 @@ theorem not_recycled_of_look {look : Look} {me : Caller} (h : look me.pid = some
     when `_LOWEST_PID` is unset or current. -/
 theorem parent_good (c : Cfg) (hg : c.Good) (ps : Ps) (T : Table) (me : Caller)
     (hfresh : ps.lowest = none ∨ ps.lowest = minPid? T)
-    (hr : me.reused = false) (hl : lookOf T me.pid = some me.ctime) :
+    (hr : me.reused = false) (hgone : me.gone = false) (hl : lookOf T me.pid = some me.ctime) :
     (parent c ps T me).2.2 = .ok (parentOf T me.pid me.ctime)
       ∧ (parent c ps T me).1.lowest = minPid? T := by
   obtain ⟨r, hfind, hstart⟩ := lookOf_some hl
@@ -55,7 +55,7 @@ theorem parent_good (c : Cfg) (hg : c.Good) (ps : Ps) (T : Table) (me : Caller)
     · rw [hm] at h
       have : ps = ⟨some m⟩ := by cases ps; simp_all
       rw [this]
-  have hraise := raise_false hr (not_recycled_of_look hl)
+  have hraise := raise_false true hr hgone (show Alive (lookOf T) me from hl)
   unfold parent
   simp only [hg.lowestStop, if_true, hlow]
   by_cases hroot : me.pid = m
@@ -67,7 +67,7 @@ theorem parent_good (c : Cfg) (hg : c.Good) (ps : Ps) (T : Table) (me : Caller)
     have hbeq : (me.pid == m) = false := by simpa using hroot
     simp only [hbeq, Bool.false_eq_true, if_false, hm, and_true]
     unfold parentCore parentOf
-    simp only [hg.ppidGuarded, if_true, hraise, Bool.false_eq_true, if_false, hfind, hnr]
+    simp only [hg.ppidGuarded, hg.goneRaises, if_true, hraise, Bool.false_eq_true, if_false, hfind, hnr]
     cases hq : T.find r.ppid with
     | none => simp
     | some q =>
@@ -104,16 +104,16 @@ theorem unseenCnt_le_length (U seen : List Nat) : unseenCnt U seen ≤ U.length 
     specification's chain -/
 theorem parentsLoop_good (c : Cfg) (hg : c.Good) (T : Table) :
     ∀ (fuel : Nat) (ps : Ps) (seen : List Nat) (cur : Caller) (acc : List Row),
-      (ps.lowest = none ∨ ps.lowest = minPid? T) → cur.reused = false →
+      (ps.lowest = none ∨ ps.lowest = minPid? T) → cur.reused = false → cur.gone = false →
       lookOf T cur.pid = some cur.ctime → unseenCnt T.pids seen < fuel →
       ∃ l, (parentsLoop c T fuel ps seen cur acc).2 = .ok (acc ++ l)
         ∧ Chain T seen cur.pid cur.ctime l := by
   intro fuel
   induction fuel with
-  | zero => intro ps seen cur acc _ _ _ h; omega
+  | zero => intro ps seen cur acc _ _ _ _ h; omega
   | succ fuel ih =>
-    intro ps seen cur acc hfresh hr hl hlt
-    obtain ⟨hout, hps⟩ := parent_good c hg ps T cur hfresh hr hl
+    intro ps seen cur acc hfresh hr hgone hl hlt
+    obtain ⟨hout, hps⟩ := parent_good c hg ps T cur hfresh hr hgone hl
     rcases hp : parent c ps T cur with ⟨ps', me', out⟩
     rw [hp] at hout hps
     simp only at hout hps
@@ -131,7 +131,7 @@ theorem parentsLoop_good (c : Cfg) (hg : c.Good) (T : Table) :
         obtain ⟨hfq, hqT, _, _, _⟩ := parentOf_some hpo
         have hqU : q.pid ∈ T.pids := List.mem_map.2 ⟨q, hqT, rfl⟩
         have hdec := unseenCnt_lt hqU hs
-        obtain ⟨l, hl', hch⟩ := ih ps' (q.pid :: seen) (callerOf q) (acc ++ [q]) (Or.inr hps) rfl
+        obtain ⟨l, hl', hch⟩ := ih ps' (q.pid :: seen) (callerOf q) (acc ++ [q]) (Or.inr hps) rfl rfl
           (lookOf_of_find hfq) (by omega)
         refine ⟨q :: l, ?_, Chain.step hpo hs hch⟩
         simp only [parentsLoop, hp, hpo, hg.parentsSeen, hcont, Bool.and_false, Bool.false_eq_true,
